@@ -69,4 +69,55 @@ theorem readSliceLoop_bytes (B f : Nat) (st : Rd) :
 theorem readSlice_bytes (B : Nat) (st : Rd) :
     (readSlice B st).1.line ++ (readSlice B st).2.bytes = st.bytes := readSliceLoop_bytes B _ st
 
+/-! ### the recursion fuel is never exhausted -/
+
+theorem fillLoop_progress (B i : Nat) (st : Rd) :
+    st.buf.length ≤ (fillLoop B i st).buf.length ∧
+    ((fillLoop B i st).err.isSome = true ∨ st.buf.length < (fillLoop B i st).buf.length) ∧
+    (st.err ≠ some .stuck → (fillLoop B i st).err ≠ some .stuck) := by
+  induction i generalizing st with
+  | zero => simp [fillLoop]
+  | succ i ih =>
+    unfold fillLoop
+    split
+    · simp
+    · next d src' h =>
+      split
+      · next hd => simp; omega
+      · next hd =>
+        have hd0 : d.length = 0 := by omega
+        have := ih { buf := st.buf ++ d, err := st.err, src := src' }
+        simp only [List.length_append, hd0, Nat.add_zero] at this
+        exact this
+
+theorem readSliceLoop_not_stuck (B f : Nat) (st : Rd) (hs : st.err ≠ some .stuck)
+    (hf : (B - st.buf.length) + (if st.err.isSome then 0 else 1) + 1 ≤ f) :
+    (readSliceLoop B f st).1.err ≠ some .stuck := by
+  induction f generalizing st with
+  | zero => omega
+  | succ f ih =>
+    unfold readSliceLoop
+    split
+    · simp
+    · split
+      · next e he => simp; intro h; exact hs (by rw [he, h])
+      · next he =>
+        split
+        · simp
+        · next hlt =>
+          have hp := fillLoop_progress B 100 st
+          apply ih
+          · exact hp.2.2 hs
+          · simp only [he, Option.isSome_none, Bool.false_eq_true, if_false] at hf
+            unfold fill
+            rcases hp.2.1 with h | h
+            · simp only [h, if_true]; omega
+            · split <;> omega
+
+/-- `ReadSlice` always returns a Go result: the `stuck` marker is unreachable. -/
+theorem readSlice_not_stuck (B : Nat) (st : Rd) (hs : st.err ≠ some .stuck) :
+    (readSlice B st).1.err ≠ some .stuck := by
+  apply readSliceLoop_not_stuck B (B + 2) st hs
+  split <;> omega
+
 end Req.H1.BufLine
